@@ -44,6 +44,8 @@ type Exec struct {
 	heapValT map[string]types.Type // heap array name -> Go type of the stored values
 	reveal   map[string]bool
 	subDone  map[string]bool
+	subIDs   map[string]int
+	subLine  map[string]int
 }
 
 type storeDef struct {
@@ -470,7 +472,9 @@ func (e *Exec) reify(v Val) string {
 	}
 	a := v.Addr
 	switch a.Kind {
-	case "field", "cell", "row":
+	case "field":
+		return e.subRef(a.Heap, a.Ref)
+	case "cell", "row":
 		f := e.Out.DeclareFun("addr$"+a.Heap, []Sort{SInt}, SInt)
 		return App(f, a.Ref)
 	case "elem":
@@ -614,6 +618,11 @@ func (e *Exec) freshTyped(name string, t types.Type, st *State) Val {
 	s := e.sortOf(t)
 	sym := e.Out.Fresh(name, s)
 	e.Out.Assert(e.rangeFact(sym, t, st))
+	if arr, ok := t.Underlying().(*types.Array); ok && e.sortOf(arr.Elem()) == SInt {
+		// array values are normalised: zero outside their bounds (so that == on arrays is extensional equality)
+		i := e.Out.FreshName("an$i")
+		e.Out.Assert("(forall ((" + i + " Int)) (! (=> (or (< " + i + " 0) (>= " + i + " " + IntLit(arr.Len()) + ")) (= (select " + sym + " " + i + ") 0)) :pattern ((select " + sym + " " + i + "))))")
+	}
 	return Val{T: sym, S: s, Ty: t}
 }
 
@@ -1487,21 +1496,32 @@ func isStructT(t types.Type) bool {
 
 // subRef is the pseudo-reference of the struct stored in field 'heap' (H$T.f) of the object at ref.
 func (e *Exec) subRef(heap, ref string) string {
-	f := e.Out.DeclareFun("addr$"+heap, []Sort{SInt}, SInt)
-	t := App(f, ref)
-	if e.subDone == nil {
-		e.subDone = map[string]bool{}
+	if e.subIDs == nil {
+		e.subIDs = map[string]int{}
 	}
-	if !e.subDone[t] && !strings.Contains(t, "q$") && !strings.Contains(t, "lt$") && !strings.Contains(t, "wf$") && !strings.Contains(t, "frame$") {
-		if _, live := e.Out.declared[Sym("addr$"+heap)]; live {
-			e.subDone[t] = true
-			inv := e.Out.DeclareFun("inv$"+heap, []Sort{SInt}, SInt)
-			// sub-references live in their own (negative) region, belong to the enclosing object, and are injective
-			e.Out.Assert("(and (< " + t + " (- 1000)) (= (owner " + t + ") (owner " + ref + ")) (= " + App(inv, t) + " " + ref + "))")
-		}
+	id, ok := subFieldIDs[heap]
+	if !ok {
+		id = len(subFieldIDs) + 1
+		subFieldIDs[heap] = id
+	}
+	t := "(sub " + IntLit(int64(id)) + " " + ref + ")"
+	if e.subLine == nil {
+		e.subLine = map[string]int{}
+	}
+	idx, done := e.subLine[t]
+	if done && (idx >= len(e.Out.Lines) || !strings.Contains(e.Out.Lines[idx], t)) {
+		done = false // the fact was emitted inside a rolled-back dry run
+	}
+	if !done && !strings.Contains(t, "q$") && !strings.Contains(t, "lt$") && !strings.Contains(t, "wf$") && !strings.Contains(t, "frame$") {
+		e.subLine[t] = len(e.Out.Lines)
+		// sub-references live in their own (negative) region, belong to the enclosing object, and the pair
+		// (field, object) can be recovered from them: sub-references of different fields or objects are distinct
+		e.Out.Assert("(and (< " + t + " (- 1000)) (= (owner " + t + ") (owner " + ref + ")) (= (subf " + t + ") " + IntLit(int64(id)) + ") (= (subr " + t + ") " + ref + "))")
 	}
 	return t
 }
+
+var subFieldIDs = map[string]int{}
 
 // loadStruct builds the value (token) of the struct of type t whose fields live at ref.
 func (e *Exec) loadStruct(t types.Type, ref string, st *State) string {
@@ -1516,6 +1536,10 @@ func (e *Exec) loadStruct(t types.Type, ref string, st *State) string {
 		fsorts = append(fsorts, e.sortOf(ft))
 		if isStructT(ft) {
 			fterms = append(fterms, e.loadStruct(ft, e.subRef(h, ref), st))
+		} else if arr, ok := ft.Underlying().(*types.Array); ok {
+			// array-typed fields live in the element heap at a sub-reference (so that they can be sliced)
+			eh, ehs := e.elemHeap(arr.Elem())
+			fterms = append(fterms, e.read1(e.get(st, eh, ehs), e.subRef(h, ref)))
 		} else {
 			fterms = append(fterms, e.read1(e.get(st, h, hs), ref))
 		}
@@ -1552,6 +1576,9 @@ func (e *Exec) storeStruct(t types.Type, ref, v string, st *State) {
 		h, hs, ft := e.fieldHeap(t, i)
 		if isStructT(ft) {
 			e.storeStruct(ft, e.subRef(h, ref), projs[i], st)
+		} else if arr, ok := ft.Underlying().(*types.Array); ok {
+			eh, ehs := e.elemHeap(arr.Elem())
+			e.write1(st, eh, ehs, e.subRef(h, ref), projs[i])
 		} else {
 			e.write1(st, h, hs, ref, projs[i])
 		}
@@ -1565,6 +1592,9 @@ func (e *Exec) zeroStructAt(t types.Type, ref string, st *State) {
 		h, hs, ft := e.fieldHeap(t, i)
 		if isStructT(ft) {
 			e.zeroStructAt(ft, e.subRef(h, ref), st)
+		} else if arr, ok := ft.Underlying().(*types.Array); ok {
+			eh, ehs := e.elemHeap(arr.Elem())
+			e.write1(st, eh, ehs, e.subRef(h, ref), e.zeroOf(ft))
 		} else {
 			e.write1(st, h, hs, ref, e.zeroOf(ft))
 		}
@@ -1573,6 +1603,14 @@ func (e *Exec) zeroStructAt(t types.Type, ref string, st *State) {
 
 // subRoot strips sub-reference wrappers "(addr$H... X)" and returns the innermost reference term.
 func subRoot(ref string) string {
+	for strings.HasPrefix(ref, "(sub ") {
+		rest := ref[len("(sub "):]
+		j := strings.IndexByte(rest, ' ')
+		if j < 0 {
+			return ref
+		}
+		ref = rest[j+1 : len(rest)-1]
+	}
 	for strings.HasPrefix(ref, "(addr$") || strings.HasPrefix(ref, "(|addr$") {
 		// "(f arg)": find the space that separates the function symbol from its single argument
 		i := 1
